@@ -121,6 +121,17 @@ func eval(c Case, sc schemas, dir string) hx.Result {
 		jsonPath := filepath.Join(dir, "doc.json")
 		yamlPath := filepath.Join(dir, "doc.yaml")
 		_ = os.WriteFile(jsonPath, j, 0o644)
+		// the same file reached through other spellings of its path: a real sub-directory and "..", and a
+		// symbolic link to a directory elsewhere followed by ".." (the operating system resolves the link
+		// first: dir/link/../alt.json is <other>/alt.json, and nothing exists at dir/alt.json)
+		other := dir + "-other"
+		_ = os.MkdirAll(filepath.Join(other, "inner"), 0o755)
+		_ = os.MkdirAll(filepath.Join(dir, "sub"), 0o755)
+		if _, err := os.Lstat(filepath.Join(dir, "link")); err != nil {
+			_ = os.Symlink(filepath.Join(other, "inner"), filepath.Join(dir, "link"))
+		}
+		_ = os.WriteFile(filepath.Join(other, "alt.json"), j, 0o644)
+		spelled := map[string]string{"via sub/..": filepath.Join(dir, "sub") + "/../doc.json", "via symlinked-dir/..": filepath.Join(dir, "link") + "/../alt.json", "via //": dir + "//doc.json"}
 
 		type ep struct {
 			name string
@@ -139,6 +150,9 @@ func eval(c Case, sc schemas, dir string) hx.Result {
 				eps = append(eps, ep{s.name + ":ValidateData(yaml-block)", verdictOf(s.s.ValidateData(yBlock))})
 			}
 			eps = append(eps, ep{s.name + ":ValidateFile(.json)", verdictOf(s.s.ValidateFile(jsonPath))})
+			for how, p := range spelled {
+				eps = append(eps, ep{s.name + ":ValidateFile(.json " + how + ")", verdictOf(s.s.ValidateFile(p))})
+			}
 			if !c.JSONOnly {
 				_ = os.WriteFile(yamlPath, yFlow, 0o644)
 				eps = append(eps, ep{s.name + ":ValidateFile(.yaml flow)", verdictOf(s.s.ValidateFile(yamlPath))})
